@@ -8,6 +8,12 @@ h['obligations'] = ['every block that reports BLOCK_CAN_BE_APPLIED (and is not f
                     'the first activated target can be re-activated at the end of the history']
 _rp = _ilu.spec_from_file_location('realspec', os.path.join(os.path.dirname(os.path.abspath(__file__)), '..', 'real', 'spec.py'))
 _real = _ilu.module_from_spec(_rp); _rp.loader.exec_module(_real)
-HARNESSES = [h] + copy.deepcopy([])
+h4 = copy.deepcopy([x for x in _c02.HARNESSES if x['name'] == 'h_toy4'][0])
+h4['tiers'] = ['quick', 'thorough']
+h4['rungs']['quick'] = [dict(h4['rungs']['thorough'][-1], timeout=450)]
+h4['obligations'] = h['obligations'][:2] + ['4-block trees: a winning candidate is valid on its own ancestry; after every call exactly root..tip are applied (a block that was only validated next to the other chain is unapplied and re-validated before it can win)']
+hf = copy.deepcopy([x for x in _c02.HARNESSES if x['name'] == 'h_toyfork'][0])
+hf['obligations'] = h4['obligations']
+HARNESSES = [h, h4, hf]
 EXPLANATION = _c02.EXPLANATION
 ASSUMPTIONS = _real.ASSUMPTIONS + _c02.ASSUMPTIONS + ['mempool payload filtering and payload removal paths are outside']
